@@ -583,7 +583,10 @@ PARAM_GRID = {
     "TN93": [{"kappa_y": 2.0, "kappa_r": 7.0}, {"kappa_y": 0.5, "kappa_r": 1.0}, {"kappa_y": 12.0, "kappa_r": 0.2}],
     "GTR": [dict(zip(GTR_P, v)) for v in ([0.5, 2.5, 0.8, 1.7, 4.2], [1, 1, 1, 1, 1], [3.0, 0.1, 1.0, 8.0, 0.6])],
     "GN": [dict(zip(GN_P, v)) for v in ([0.7, 1.9, 3.1, 0.4, 2.2, 0.9, 1.3, 4.5, 2.8, 0.6, 1.1], [1] * 11,
-                                        [5.0, 0.05, 0.3, 2.0, 0.1, 6.0, 0.8, 0.2, 3.3, 1.5, 0.07])],
+                                        [5.0, 0.05, 0.3, 2.0, 0.1, 6.0, 0.8, 0.2, 3.3, 1.5, 0.07])]
+          # rate matrices with a repeated eigenvalue and too few eigenvectors (defective): only an exponentiator that
+          # checks its eigendecomposition (the default 'either') gets P(t) right there
+          + [{n: (1.0 if n in ("G>C", "C>A") else 0.1) for n in GN_P}, {n: (3.0 if n in ("T>A", "A>G") else 1.0) for n in GN_P}],
     "ssGN": [dict(zip(SSGN_P, v)) for v in ([2.4, 0.6, 1.2, 3.5, 0.8], [1] * 5, [0.1, 4.0, 0.3, 0.9, 6.0])],
 }
 NUC_MODELS = ["JC69", "F81", "K80", "HKY85", "TN93", "GTR", "GN", "ssGN"]
